@@ -1,5 +1,8 @@
 use std::borrow::Borrow;
+#[cfg(not(xray_verif))]
 use std::collections::{HashMap, HashSet};
+#[cfg(xray_verif)]
+use crate::verif::{CtHashMap as HashMap, CtHashSet as HashSet};
 
 use crate::builtin::optional::XOptionalType;
 use crate::builtin::sequence::XSequenceType;
@@ -162,6 +165,8 @@ pub struct CompilationScope<'p, W, R, T> {
 static NEXT_ID: AtomicUsize = AtomicUsize::new(0);
 
 fn next_id() -> usize {
+    #[cfg(xray_verif)]
+    NEXT_ID.fetch_add(crate::verif::id_skip(), Ordering::SeqCst);
     NEXT_ID.fetch_add(1, Ordering::SeqCst)
 }
 
